@@ -44,11 +44,22 @@ pub mod substream {
         stream: crate::yamux::Stream,
         codec: ProtocolCodec,
     ) -> Substream {
+        substream_from_yamux_with_permit(peer, substream_id, stream, codec, None)
+    }
+
+    /// Same, with the lifetime permit a keep-alive protocol's substream carries.
+    pub(crate) fn substream_from_yamux_with_permit(
+        peer: PeerId,
+        substream_id: SubstreamId,
+        stream: crate::yamux::Stream,
+        codec: ProtocolCodec,
+        lifetime_permit: Option<crate::protocol::Permit>,
+    ) -> Substream {
         let socket = FuturesAsyncReadCompatExt::compat(stream);
         Substream::new_tcp(
             peer,
             substream_id,
-            TcpSubstream::new(socket, BandwidthSink::new(), None),
+            TcpSubstream::new(socket, BandwidthSink::new(), lifetime_permit),
             codec,
         )
     }
